@@ -287,28 +287,26 @@ def check_rel(report):
     fn = fi.node
     r.need(len(fn.args.args) == 2, "rel(self, address)", "signature changed: the argument about what rel can know no longer applies")
     A = fn.args.args[1].arg
-    same = [n for n in fn.body if isinstance(n, ast.If) and pmatch(f"self.package == {A}.package and self.module == {A}.module", n.test) is not None]
-    r.need(len(same) == 1, "rel: if self.package == address.package and self.module == address.module")
-    parents = {}
-    for n in ast.walk(same[0]):
-        for c in ast.iter_child_nodes(n):
-            parents[c] = n
-    rets = [n for n in ast.walk(same[0]) if isinstance(n, ast.Return)]
-    for ret in rets:
-        v = ret.value
-        r.instance(ast.unparse(ret)[:80])
-        quoted = isinstance(v, ast.JoinedStr) and isinstance(v.values[0], ast.Constant) and isinstance(v.values[-1], ast.Constant) \
-            and str(v.values[0].value)[:1] in ("'", '"') and str(v.values[-1].value)[-1:] == str(v.values[0].value)[:1]
-        guard = parents.get(ret)
-        contained = pmatch("'.'.join(self.parent[1:] + (self.name,))", v) is not None and isinstance(guard, ast.If) \
-            and pmatch(f"self.parent and self.parent[0] == {A}.name", guard.test) is not None
-        r.check(quoted or contained, fi.module.path, ret.lineno, f"rel: {ast.unparse(ret)[:90]}",
-                "an unquoted same-file reference is evaluated in the class body being written, where a nested message or enum with the same "
-                "simple name shadows the module-level one (and a later declaration is not bound yet): the field silently points at the wrong type")
-    last = fn.body[-1]
-    r.instance("other files")
-    r.check(isinstance(last, ast.Return) and ast.unparse(last.value) == "str(self)", fi.module.path, last.lineno, "rel: return str(self)",
-            "references into other modules are written as module.Name")
+    from ..pymodel import nreturn, decision_leaves
+    e = nreturn(pm(), fi)
+    r.need(e is not None, "Address.rel", "the function does not reduce to a decision table; the rule cannot judge it")
+    SAME = {(f"self.package == {A}.package", True), (f"self.module == {A}.module", True)}
+    n_same = 0
+    for conds, v in decision_leaves(e):
+        if SAME <= set(conds):
+            n_same += 1
+            r.instance(ast.unparse(v)[:80])
+            quoted = isinstance(v, ast.JoinedStr) and isinstance(v.values[0], ast.Constant) and isinstance(v.values[-1], ast.Constant) \
+                and str(v.values[0].value)[:1] in ("'", '"') and str(v.values[-1].value)[-1:] == str(v.values[0].value)[:1]
+            contained = pmatch("'.'.join(self.parent[1:] + (self.name,))", v) is not None and ("self.parent", True) in conds \
+                and (f"self.parent[0] == {A}.name", True) in conds
+            r.check(quoted or contained, fi.module.path, fn.lineno, f"rel: same-file reference written as {ast.unparse(v)[:90]}",
+                    "an unquoted same-file reference is evaluated in the class body being written, where a nested message or enum with the same "
+                    "simple name shadows the module-level one (and a later declaration is not bound yet): the field silently points at the wrong type")
+        else:
+            r.instance("other files")
+            r.check(ast.unparse(v) == "str(self)", fi.module.path, fn.lineno, f"rel: {ast.unparse(v)[:60]}", "references into other modules are written as module.Name")
+    r.need(n_same >= 2, "same-file outcomes of Address.rel", str(n_same))
 
 
 def run(report: core.Report):
